@@ -657,6 +657,11 @@ func runC07(e *core.Env) error {
 					if tag == "double" {
 						verdict, want = sortLogs(verdict), sortLogs(honest)
 					}
+					if tag == "number-beyond-64-bits" {
+						// a number that is not the requested one (it differs by a multiple of 2^64) must be refused,
+						// not read modulo 2^64
+						verdict, want = impl, "err"
+					}
 					if tag == "reorder-items" {
 						// the items are the node's own, only their order differs: the order in which logs end up
 						// attached is not part of the result; WHERE each item sits and what it carries is
